@@ -689,6 +689,7 @@ func runFrame(fr *frame) {
 				r.abort("unwind", fmt.Sprintf("instruction budget %d exceeded at %s", r.instrLimit, fr.pos()))
 			}
 			fr.curInstr = instr
+			r.curFrame = fr
 			if visitInstr(fr, instr) == kReturn {
 				return
 			}
